@@ -1,1 +1,183 @@
+(* C10 — proposer settings follow the documented precedence of the execution config.
+   Property theorems only (proofs in Proofs/C10.v and Proofs/C10_Json.v).
+
+   Model: Model/C10_ExecConfig.v.  [proposer_config_v2] / [proposer_config_v1] follow the code
+   statement by statement (base options, first matching entry, proposer-level overwrite,
+   reset, update / remove / add of relays); [resolve_v2] / [resolve_v1] are the documented
+   precedence.  Relay maps are key-unique association lists ([wf_config2]: Go maps). *)
 From Verif Require Import Lib.Base Model.C10_ExecConfig Proofs.C10.
+From Coq Require Import Permutation.
+
+(* ------------------------------------------------------------------------------------------- *)
+(* Version 2: the mutation order of the code IS the documented precedence, for every
+   configuration, validator and fallback — relay for relay, field for field, in the same order
+   when the maps are iterated in list order. *)
+Theorem C10_v2_is_resolve :
+  forall (c : config2) (v : validator) (fbfee fbgas : N),
+    wf_config2 c -> proposer_config_v2 c v fbfee fbgas = resolve_v2 c v fbfee fbgas.
+Proof. exact v2_is_resolve. Qed.
+Print Assumptions C10_v2_is_resolve.
+
+(* ... and whatever order Go iterates the relay maps in, the outcome is the same error or the same
+   fee recipient with a permutation of the same relay list. *)
+Theorem C10_v2_map_order_irrelevant :
+  forall (c c' : config2) (v : validator) (fbfee fbgas : N),
+    wf_config2 c -> config2_equiv c c' ->
+    opt_cfg_equiv (proposer_config_v2 c v fbfee fbgas) (proposer_config_v2 c' v fbfee fbgas).
+Proof. exact v2_order_irrelevant. Qed.
+Print Assumptions C10_v2_map_order_irrelevant.
+
+(* The precedence, said as a set of relays: with [p] the applicable proposer entry, the fee
+   recipient is the first defined of proposer / top level / fallback; every relay address occurs
+   at most once; the relays are exactly those inherited from the relay level (none after
+   reset_relays) or named by the entry, minus the disabled ones; and each carries, per field,
+   the first defined of proposer-relay, proposer, base-relay, top level, fallback
+   ([resolve_relay], which is literally that chain). *)
+Theorem C10_v2_relay_set :
+  forall (c : config2) (p : proposer) (fbfee fbgas : N),
+    NoDup (keys (e_relays c)) -> wf_proposer p ->
+    let out := resolve_with c p fbfee fbgas in
+    pc_fee out = first_some [p_fee p; e_fee c] fbfee /\
+    NoDup (map rc_addr (pc_relays out)) /\
+    forall r, In r (pc_relays out) <->
+              ((In (rc_addr r) (keys (inherited c p)) \/ In (rc_addr r) (keys (p_relays p))) /\
+               relay_disabled p (rc_addr r) = false /\
+               r = resolve_relay c p fbfee fbgas (rc_addr r)).
+Proof. exact resolve_with_relays. Qed.
+Print Assumptions C10_v2_relay_set.
+
+(* Only the FIRST matching proposer entry counts: the entries before it (none matching) and all
+   entries after it (matching or not, valid or not) have no influence at all. *)
+Theorem C10_first_match_only :
+  forall (c : config2) (pre : list proposer) (p : proposer) (post : list proposer)
+         (v : validator) (fbfee fbgas : N),
+    wf_config2 c -> e_props c = pre ++ p :: post ->
+    Forall (fun q => matches q v = MNo) pre -> matches p v = MYes ->
+    proposer_config_v2 c v fbfee fbgas = Some (resolve_with c p fbfee fbgas).
+Proof. exact v2_first_match_only. Qed.
+Print Assumptions C10_first_match_only.
+
+(* No entry matches: relay-level and top-level defaults over the fallback, nothing else. *)
+Theorem C10_no_match_defaults :
+  forall (c : config2) (v : validator) (fbfee fbgas : N),
+    wf_config2 c -> Forall (fun q => matches q v = MNo) (e_props c) ->
+    proposer_config_v2 c v fbfee fbgas = Some (resolve_with c empty_proposer fbfee fbgas).
+Proof. exact v2_no_match. Qed.
+Print Assumptions C10_no_match_defaults.
+
+(* The lookup fails exactly when an entry with neither account nor non-zero key is reached
+   before any match. *)
+Theorem C10_v2_error_iff :
+  forall (c : config2) (v : validator) (fbfee fbgas : N),
+    wf_config2 c ->
+    (proposer_config_v2 c v fbfee fbgas = None <->
+     exists pre q post, e_props c = pre ++ q :: post /\
+                        Forall (fun q => matches q v = MNo) pre /\ p_sel q = SelKey 0).
+Proof. exact v2_error_iff. Qed.
+Print Assumptions C10_v2_error_iff.
+
+(* reset_relays discards everything the relay level says: the outcome does not depend on it. *)
+Theorem C10_reset_discards_inherited :
+  forall (c : config2) (p : proposer) (rs : list (N * base_relay)) (fbfee fbgas : N),
+    p_reset p = true ->
+    resolve_with (with_relays c rs) p fbfee fbgas = resolve_with c p fbfee fbgas.
+Proof. exact reset_discards_inherited. Qed.
+Print Assumptions C10_reset_discards_inherited.
+
+(* a relay the entry disables is not used, inherited or not *)
+Theorem C10_disabled_removed :
+  forall (c : config2) (p : proposer) (fbfee fbgas a : N) (pr : prop_relay),
+    aget (p_relays p) a = Some pr -> pr_disabled pr = true ->
+    ~ In a (map rc_addr (pc_relays (resolve_with c p fbfee fbgas))).
+Proof. exact disabled_removed. Qed.
+Print Assumptions C10_disabled_removed.
+
+(* a relay the entry names and does not disable is used, new or inherited *)
+Theorem C10_named_relay_present :
+  forall (c : config2) (p : proposer) (fbfee fbgas a : N) (pr : prop_relay),
+    aget (p_relays p) a = Some pr -> pr_disabled pr = false ->
+    In (resolve_relay c p fbfee fbgas a) (pc_relays (resolve_with c p fbfee fbgas)).
+Proof. exact named_relay_present. Qed.
+Print Assumptions C10_named_relay_present.
+
+(* an inherited relay stays unless reset or disabled *)
+Theorem C10_inherited_relay_present :
+  forall (c : config2) (p : proposer) (fbfee fbgas a : N),
+    In a (keys (e_relays c)) -> p_reset p = false -> relay_disabled p a = false ->
+    In (resolve_relay c p fbfee fbgas a) (pc_relays (resolve_with c p fbfee fbgas)).
+Proof. exact inherited_relay_present. Qed.
+Print Assumptions C10_inherited_relay_present.
+
+(* ------------------------------------------------------------------------------------------- *)
+(* Legacy version: proposer entry by key, else default, else fallback; gas limit alone falls back
+   field-wise; relays only when the builder is enabled. *)
+Theorem C10_v1_lookup :
+  forall (c : config1) (key fbfee fbgas : N),
+    proposer_config_v1 c key fbfee fbgas = resolve_v1 c key fbfee fbgas.
+Proof. exact v1_is_resolve. Qed.
+Print Assumptions C10_v1_lookup.
+
+Theorem C10_v1_lookup_cases :
+  forall (c : config1) (key fbfee fbgas : N),
+    let out := proposer_config_v1 c key fbfee fbgas in
+    let of_entry (q : proposer1) :=
+      pc_fee out = q_fee q /\
+      forall r, In r (pc_relays out) <->
+        exists b, q_builder q = Some b /\ b_enabled b = true /\ In (rc_addr r) (b_relays b) /\
+                  r = {| rc_addr := rc_addr r; rc_pk := None; rc_fee := q_fee q;
+                         rc_gas := if q_gas q =? 0 then fbgas else q_gas q;
+                         rc_grace := b_grace b; rc_min := dec_zero |} in
+    match aget (c1_props c) key with
+    | Some (Some q) => of_entry q
+    | Some None => out = {| pc_fee := fbfee; pc_relays := [] |}
+    | None => match c1_default c with
+              | Some q => of_entry q
+              | None => out = {| pc_fee := fbfee; pc_relays := [] |}
+              end
+    end.
+Proof. exact v1_lookup_cases. Qed.
+Print Assumptions C10_v1_lookup_cases.
+
+(* Either version behind the ExecutionConfigurator interface. *)
+Theorem C10_lookup_is_resolve :
+  forall (c : config) (v : validator) (fbfee fbgas : N),
+    wf_config c -> lookup c v fbfee fbgas = resolve c v fbfee fbgas.
+Proof. exact lookup_is_resolve. Qed.
+Print Assumptions C10_lookup_is_resolve.
+
+(* ------------------------------------------------------------------------------------------- *)
+(* Non-vacuity: the example the tests do not have — a proposer-level value, a relay-level default
+   and a proposer-relay override on one relay, a second (ignored) matching entry, a disabled
+   inherited relay and a new relay. *)
+Definition ex_br (fee gas : option N) : base_relay :=
+  {| br_pk := Some 7; br_fee := fee; br_gas := gas; br_grace := None; br_min := Some (5, 17%Z) |}.
+Definition ex_pr (dis : bool) (gas : option N) : prop_relay :=
+  {| pr_disabled := dis; pr_pk := None; pr_fee := None; pr_gas := gas; pr_grace := Some 2000000; pr_min := None |}.
+Definition ex_cfg : config2 :=
+  {| e_fee := Some 11; e_gas := None; e_grace := Some 1000000; e_min := None;
+     e_relays := [(1, ex_br (Some 12) (Some 100)); (2, ex_br None None)];
+     e_props := [ {| p_sel := SelAcct 5; p_fee := Some 13; p_gas := Some 200; p_grace := None; p_min := None;
+                     p_reset := false; p_relays := [(1, ex_pr false (Some 300)); (2, ex_pr true None); (3, ex_pr false None)] |};
+                  {| p_sel := SelKey 9; p_fee := Some 14; p_gas := None; p_grace := None; p_min := None;
+                     p_reset := true; p_relays := [] |} ] |}.
+
+Example C10_example_wf : wf_config2 ex_cfg.
+Proof.
+  split; [repeat constructor; cbn; intuition discriminate|].
+  repeat constructor; cbn; intuition discriminate.
+Qed.
+
+Example C10_example_lattice :
+  proposer_config_v2 ex_cfg {| v_key := 9; v_accts := [5] |} 99 30000000 =
+    Some {| pc_fee := 13;
+            pc_relays := [ {| rc_addr := 1; rc_pk := Some 7; rc_fee := 13; rc_gas := 300; rc_grace := 2000000; rc_min := (5, 17%Z) |};
+                           {| rc_addr := 3; rc_pk := None; rc_fee := 13; rc_gas := 200; rc_grace := 2000000; rc_min := dec_zero |} ] |}.
+Proof. reflexivity. Qed.
+
+Example C10_example_second_entry_alone :
+  proposer_config_v2 ex_cfg {| v_key := 9; v_accts := [] |} 99 30000000 = Some {| pc_fee := 14; pc_relays := [] |}.
+Proof. reflexivity. Qed.
+
+Example C10_example_error :
+  proposer_config_v2 (with_props ex_cfg [empty_proposer]) {| v_key := 9; v_accts := [] |} 99 1 = None.
+Proof. reflexivity. Qed.
